@@ -22,6 +22,8 @@ type wsCase struct {
 	ID    string            `json:"id"`
 	Files map[string]string `json:"files"`
 	Ops   []wsOp            `json:"ops"`
+	// Size: limits.maxFileSizeBytes in force for the updated and for the rebuilt workspace (0 = default)
+	Size int64 `json:"size"`
 }
 
 type wsTpl struct {
@@ -147,13 +149,20 @@ func init() {
 			if err := writeFiles(dir, c.Files); err != nil {
 				return nil, err
 			}
-			loader := include.NewLoader()
+			mkLoader := func() *include.Loader {
+				l := include.NewLoader()
+				if c.Size > 0 {
+					l.SetLimits(include.Limits{MaxFileSizeBytes: c.Size})
+				}
+				return l
+			}
+			loader := mkLoader()
 			w := workspace.NewWorkspace(dir, loader)
 			if err := w.Initialize(); err != nil {
 				return nil, err
 			}
 			fresh := func() (*wsProj, error) {
-				fw := workspace.NewWorkspace(dir, include.NewLoader())
+				fw := workspace.NewWorkspace(dir, mkLoader())
 				if err := fw.Initialize(); err != nil {
 					return nil, err
 				}
